@@ -29,6 +29,10 @@ def run(chk: Check) -> None:
     barrier_opens_when_empty(chk, 'DOM-no-step-lost')
     status_pairing(chk)
     never_raise(chk)
+    # "play() cancels a pause that has not yet taken effect" also when both arrive as messages: every control intent goes through the one scheduling routine with the same
+    # number of loop hops, so a pause followed by a play is carried out in that order (decision tables shared with C16)
+    from .c16 import dispatch_tables
+    dispatch_tables(chk, 'PAIR-play', 'PAIR-play')
 
 
 def _calls(n):
